@@ -380,7 +380,7 @@ pub fn gen_stream(desc: &ArrDesc, horizon: u64, max_events: usize, rng: &mut Rng
             }
             Stream::Delayed(Box::new(s), dl)
         }
-        ArrDesc::Vec(parts) => {
+        ArrDesc::Vec(parts) | ArrDesc::Slice(parts) => {
             stats[4] += 1;
             Stream::Merged(
                 parts
@@ -457,7 +457,7 @@ pub fn stream_admissible(desc: &ArrDesc, stream: &Stream) -> Result<(), String> 
             }
             Ok(())
         }
-        (ArrDesc::Vec(parts), Stream::Merged(ss)) => {
+        (ArrDesc::Vec(parts), Stream::Merged(ss)) | (ArrDesc::Slice(parts), Stream::Merged(ss)) => {
             if parts.len() != ss.len() {
                 return Err("merged stream does not match the vector model".into());
             }
@@ -528,6 +528,7 @@ fn strip_extrap(m: &ArrDesc) -> ArrDesc {
         ArrDesc::Jittered(a, j) => ArrDesc::Jittered(Box::new(strip_extrap(a)), *j),
         ArrDesc::Propagated(a, j) => ArrDesc::Propagated(Box::new(strip_extrap(a)), *j),
         ArrDesc::Vec(v) => ArrDesc::Vec(v.iter().map(strip_extrap).collect()),
+        ArrDesc::Slice(v) => ArrDesc::Slice(v.iter().map(strip_extrap).collect()),
         ArrDesc::SumOf(a, b) => ArrDesc::SumOf(Box::new(strip_extrap(a)), Box::new(strip_extrap(b))),
         ArrDesc::Rc(a) => ArrDesc::Rc(Box::new(strip_extrap(a))),
         other => other.clone(),
@@ -601,7 +602,7 @@ pub fn c10_item(sh: &StreamShared, k: u64, acc: &mut Acc, note: &dyn Fn(&str)) {
         ArrDesc::Prefix(..) => acc.counters.inc("model.prefix"),
         ArrDesc::Jittered(..) => acc.counters.inc("model.clone_with_jitter"),
         ArrDesc::Propagated(..) => acc.counters.inc("model.propagated"),
-        ArrDesc::Vec(_) | ArrDesc::SumOf(..) => acc.counters.inc("model.superposition"),
+        ArrDesc::Vec(_) | ArrDesc::Slice(_) | ArrDesc::SumOf(..) => acc.counters.inc("model.superposition"),
         ArrDesc::Rc(_) => acc.counters.inc("model.rc"),
         ArrDesc::Never => acc.counters.inc("model.never"),
         ArrDesc::Extrap(_) => {}
